@@ -97,6 +97,30 @@ def catalogue():
     for n, exp in ((0, "out"), (1, "in"), (2, "in"), (3, "out")):
         add("Project(labels)", n, exp, lambda n=n: cb.Project([f"g{i}" for i in range(n)]))
 
+    # ... the same limit when the labels of one edge come from two operations that share it (either add order)
+    def shared_edge_labels(first, second, second_added_first):
+        import os
+
+        from mc import runner
+
+        a = cb.Box([0, 0, 0], [1, 1, 1])
+        b = cb.Box([1, 0, 0], [2, 1, 1])
+        a.project_edge(1, 2, first)
+        b.project_edge(0, 3, second)
+        for op in (a, b):
+            for ax in range(3):
+                op.chop(ax, count=1)
+        m = cb.Mesh()
+        for op in ((b, a) if second_added_first else (a, b)):
+            m.add(op)
+        m.write(os.path.join(runner.scratch_dir(), f"c20p_{os.getpid()}"))
+
+    for order in (False, True):
+        add("project_edge on an edge shared by two operations", f"2 + 1 surfaces, second added first={order}", "out", lambda order=order: shared_edge_labels(["g0", "g1"], "g2", order))
+        add("project_edge on an edge shared by two operations", f"1 + 2 surfaces, second added first={order}", "out", lambda order=order: shared_edge_labels("g0", ["g1", "g2"], order))
+        add("project_edge on an edge shared by two operations", f"1 + 1 surfaces, second added first={order}", "in", lambda order=order: shared_edge_labels("g0", "g1", order))
+        add("project_edge on an edge shared by two operations", f"2 + 2 surfaces (the same two), second added first={order}", "in", lambda order=order: shared_edge_labels(["g0", "g1"], ["g1", "g0"], order))
+
     def add_labels(n):
         pr = cb.Project("g0")
         for i in range(1, n):
